@@ -11,7 +11,7 @@ QuickScenarios == {S(1, k, p) : k \in 1..2, p \in Procs(2)} \cup {S(1, 1, <<3>>)
                   \cup {S(2, 1, p) : p \in {<<1>>, <<0, 1>>, <<2>>, <<1, 1>>}} \cup {S(2, 2, <<1>>), S(2, 2, <<0, 1>>)}
 \* thorough: the full bounds: hosts 1..2, executors 1..2, 1..2 processors, 0..3 tasks each
 ThoroughScenarios == {S(h, k, p) : h \in 1..2, k \in 1..2, p \in Procs(3)}
-LiveScenarios == {S(1, k, p) : k \in 1..2, p \in {<<2>>, <<1, 1>>, <<0, 2>>}} \cup {S(2, 1, <<1>>), S(2, 1, <<0, 1>>), S(2, 2, <<1>>)}
+LiveScenarios == {S(1, 2, <<2>>), S(1, 2, <<1, 1>>), S(1, 1, <<0, 2>>), S(2, 1, <<1>>)}
 LiveThoroughScenarios == {S(h, k, p) : h \in 1..2, k \in 1..2, p \in Procs(2)}
 SelfTestScenarios == {S(1, 2, <<2>>), S(2, 1, <<1>>)}
 
